@@ -69,6 +69,12 @@ def programs(thorough: bool) -> list[dict]:
         for k in plain_kids[:2]:
             out.append(node(fl, mr, sc, [k, k], "group_common"))
             out.append(node(fl, mr, sc, [k, k, k], "group_common"))
+    # results read twice from one invocation / group object (wait first, use later); incl. a side-effect-only
+    # sub-task whose result is None
+    for fl, mr, sc in roots[:2]:
+        for k in (node("p", 0, ["none"]), plain_kids[0], plain_kids[1]):
+            out.append(node(fl, mr, sc, [k], "single_twice"))
+            out.append(node(fl, mr, sc, [k, k], "group_twice"))
     grand = [kids1[0], kids1[1], kids1[2], kids1[4]]
     for fl, mr, sc in roots:
         for mfl in "pd":
